@@ -286,7 +286,7 @@ pub fn c08_build(raw: &Raw, _tier: Tier, _sched: bool) -> Scenario {
     // sometimes a channeled reader too
     if knob(raw, 11) % 2 == 0 {
         let id = s.subs.iter().map(|x| x.id + 1).max().unwrap_or(0);
-        s.subs.push(SubSpec { id, kind: SubKind::Channeled { cap: 1 + (knob(raw, 12) % 3) as usize, pol: Pol::Block, default_ctor: false }, reads_state: true, gate: None, stall: Stall::None, via_trait: false, forwards: false });
+        s.subs.push(SubSpec { id, kind: SubKind::Channeled { cap: 1 + (knob(raw, 12) % 3) as usize, pol: Pol::Block, default_ctor: false }, reads_state: true, gate: None, stall: Stall::None, via_trait: false, forwards: false, on_unsub_ops: vec![] });
         s.prelude.push(Op::Subscribe { store: 0, sub: id });
     }
     s
